@@ -72,6 +72,8 @@ def parseMethod (m axes keep : String) : Option UMethod :=
   | "call" => some .call
   | "accumulate" => some .accumulate
   | "outer" => some .outer
+  | "matmul" => some .matmul
+  | "vecdot" => some .vecdot
   | "reduce" => do
     let a ← parseOptIntList axes
     let k ← parseBool keep
